@@ -28,7 +28,7 @@ ASSUMPTIONS = ["Redis and RabbitMQ are wire-level fakes speaking the real protoc
                "argument payloads starting with the reserved bucket marker are excluded (per the statement)",
                "inputs a broker refuses loudly at enqueue are counted under refused_inputs, not judged"]
 EVAL_COUNTER = "items_judged"
-REQUIRED = ["items_judged", "jobs_roundtripped", "bucket_transport", "codec_roundtrips", "keys_checked", "durations_over_10y"]
+REQUIRED = ["items_judged", "jobs_roundtripped", "bucket_transport", "codec_roundtrips", "keys_checked", "durations_over_10y", "reused_bucket_ids"]
 CASE_TIMEOUT = 150
 
 NAME_FIRST = string.ascii_letters + "_"
@@ -48,6 +48,8 @@ def gen_cases(tier, seed):
     for i in range({"quick": 4, "thorough": 40}[tier]):
         cases.append({"type": "keys", "seed": rnd.randrange(10**6), "n": 400})
     cases.append({"type": "collide", "seed": 1})
+    for i in range({"quick": 6, "thorough": 60}[tier]):
+        cases.append({"type": "reuse", "kind": ["mem", "redis", "rabbit"][i % 3], "seed": rnd.randrange(10**6)})
     return cases
 
 
@@ -396,6 +398,66 @@ async def collide_case(loop, out, stats, fps):
                 rig.close()
 
 
+async def reuse_case(loop, case, out, stats, fps):
+    """One long-running worker; jobs enqueued one after another that re-use an argument-bucket id (and a result id)
+    with different arguments: every execution must see the arguments of ITS job."""
+    from rv.wl import World, run_worker
+
+    kind = case["kind"]
+    rnd = random.Random(case["seed"])
+    w = World(loop, kind, converter="basic", seed=case["seed"], latency=None if kind == "mem" else 0.001)
+    try:
+        await w.open()
+        r = w.router()
+        seen = []
+
+        async def echo(**kwargs):
+            seen.append(kwargs)
+            return kwargs
+
+        r.actor(name="echo")(echo)
+        await w.conn.message_broker.queue_declare("default")
+        from repid import Job
+
+        worker = w.worker([r], tasks_limit=3, graceful_shutdown_time=3.0, handle_signals=[__import__("signal").SIGUSR1])
+        task = loop.create_task(run_worker(w, worker, until=lambda: False, horizon=30.0, poll=0.1))
+        sent = []
+        ids = [f"shared-{i}" for i in range(2)]
+        for i in range(rnd.randint(4, 8)):
+            args = {"n": i, "v": rjson(rnd, 2), "who": rnd.choice(["alice", "bob", "carol"])}
+            aid = rnd.choice(ids)
+            job = Job("echo", id_=f"r{i}", args=args, args_id=aid, result_id="res-" + aid, use_args_bucketer=True, store_result=True, _connection=w.conn)
+            await job.enqueue()
+            sent.append((job, args))
+            for _ in range(100):
+                if len(seen) > i:
+                    break
+                await asyncio.sleep(0.05)
+            res = await job.result
+            stats["items_judged"] += 1
+            stats["jobs_roundtripped"] += 1
+            stats["bucket_transport"] += 1
+            stats["reused_bucket_ids"] += 1
+            fps.add(f"reuse/{kind}/{i}/{aid}")
+            want = json.loads(job.args)
+            if len(seen) <= i:
+                out.append(V("field_mismatch", kind, "payload/reused-bucket-id/not-run", f"job r{i} (args_id {aid}) was not executed"))
+                break
+            if seen[i] != want:
+                out.append(V("field_mismatch", kind, "payload/reused-bucket-id", f"job r{i} re-uses argument bucket {aid!r}: the actor received {str(seen[i])[:120]}, enqueued {str(want)[:120]}"))
+                break
+            if res is None or json.loads(res.data) != want:
+                out.append(V("field_mismatch", kind, "result/reused-result-id", f"job r{i}: Job.result holds {None if res is None else res.data[:100]}, expected the echo of {str(want)[:100]}"))
+                break
+        from rv.wl import fire_stop
+
+        fire_stop(loop)
+        await task
+        stats["unknown_server_commands"] += w.rig.unknown_commands()
+    finally:
+        await w.close()
+
+
 def run_case(case):
     from rv.sim import loop as vl
 
@@ -410,6 +472,10 @@ def run_case(case):
         codec_case(case, out, stats, fps)
     elif case["type"] == "keys":
         keys_case(case, out, stats, fps)
+    elif case["type"] == "reuse":
+        res = vl.run(lambda loop: reuse_case(loop, case, out, stats, fps), max_steps=4_000_000, seed=case["seed"])
+        if res.exc is not None:
+            out.append(V("harness_or_api_error", case["kind"], "reuse", f"{type(res.exc).__name__}: {res.exc}"))
     else:
         res = vl.run(lambda loop: collide_case(loop, out, stats, fps), max_steps=2_000_000, seed=1)
         if res.exc is not None:
